@@ -179,8 +179,9 @@ def monitor_c20(se, stats):
         cur = parse_snap(st["snap"])
         # (a) the figures of the admin API (queue metrics, server totals) at quiescence
         # a delivery belongs to the queue object it came from: a queue declared later under the same name is another queue
+        _rb = _reborn(st, cur)
         for qn in cur["queues"]:
-            if prev is None or qn not in prev["queues"]:
+            if prev is None or qn not in prev["queues"] or qn in _rb:
                 qborn[qn] = i
         un = {}
         live = set()
@@ -347,6 +348,39 @@ def _deliveries(st, pre):
     return out
 
 
+
+def _reborn(st, cur):
+    """queue names whose queue object was deleted within this step (a pipelined delete + declare, or a restart): if the
+    name is there afterwards it is a new queue"""
+    if st["op"] == "RESTART":
+        return set(cur["queues"])
+    subs = [x.strip().split() for x in st["op"][6:].split("|")] if st["op"].startswith("MULTI ") else [st["op"].split()]
+    if not any(":queue.delete-ok" in fr for fr in st["frames"]):
+        return set()
+    return {de(g[3]) for g in subs if g and g[0] == "QDEL" and len(g) > 3}
+
+
+def _births(st, i, cur, prev, qborn, uborn):
+    """Queue incarnations: a queue name absent before, or deleted within this very step (a pipelined delete + declare),
+    is a new queue object born at step i; an unsettled delivery is born at the step it first shows."""
+    subs = [x.strip().split() for x in st["op"][6:].split("|")] if st["op"].startswith("MULTI ") else [st["op"].split()]
+    deleted_now = {de(g[3]) for g in subs if g and g[0] == "QDEL" and len(g) > 3} if any(":queue.delete-ok" in fr for fr in st["frames"]) else set()
+    if st["op"] == "RESTART":
+        deleted_now = set(cur["queues"])
+    for qn in cur["queues"]:
+        if prev is None or qn not in prev["queues"] or qn in deleted_now:
+            qborn[qn] = i
+    live = set()
+    for key, ch in cur["chans"].items():
+        for u in ch["unacked"]:
+            k = (key, u["tag"], u["uid"])
+            live.add(k)
+            uborn.setdefault(k, i)
+    for k in list(uborn):
+        if k not in live:
+            del uborn[k]
+
+
 def _held(snap, qborn, uborn, i):
     """per queue: (ready list, [(chan key, tag, uid)] unacked that belong to the current queue object)"""
     held = {}
@@ -369,8 +403,9 @@ def monitor_c01(se, stats):
         if st["snap"] == ["WEDGED"]:
             break
         cur = parse_snap(st["snap"])
+        _rb = _reborn(st, cur)
         for qn in cur["queues"]:
-            if prev is None or qn not in prev["queues"]:
+            if prev is None or qn not in prev["queues"] or qn in _rb:
                 qborn[qn] = i
         live = set()
         for key, ch in cur["chans"].items():
@@ -441,8 +476,9 @@ def monitor_c02(se, stats):
             break
         cur = parse_snap(st["snap"])
         f = st["op"].split()
+        _rb = _reborn(st, cur)
         for qn in cur["queues"]:
-            if prev is None or qn not in prev["queues"]:
+            if prev is None or qn not in prev["queues"] or qn in _rb:
                 qborn[qn] = i
         for g in ([x.strip().split() for x in st["op"][6:].split("|")] if f[0] == "MULTI" else [f]):
             if g[0] == "PUB":
@@ -515,15 +551,14 @@ def monitor_c03(se, stats):
     pub = {}             # uid -> (publisher (c,h), step)
     first = {}           # (queue, birth) -> list of (uid) in first-delivery order
     seen = set()
-    qborn = {}
+    qborn, uborn = {}, {}
     for i, st in enumerate(se["steps"]):
         if st["snap"] == ["WEDGED"]:
             break
         cur = parse_snap(st["snap"])
         f = st["op"].split()
-        for qn in cur["queues"]:
-            if prev is None or qn not in prev["queues"]:
-                qborn[qn] = i
+        puborn, pqborn = dict(uborn), dict(qborn)
+        _births(st, i, cur, prev, qborn, uborn)
         for gi, g in enumerate([x.strip().split() for x in st["op"][6:].split("|")] if f[0] == "MULTI" else [f]):
             if g[0] == "PUB":
                 pub[g[8]] = ((int(g[1]), int(g[2])), i * 100 + gi)
@@ -558,7 +593,9 @@ def monitor_c03(se, stats):
                     if not pch:
                         continue
                     upto = int(f[3]) if f[0] == "NACK" else 0
-                    mine = [u for u in sorted(pch["unacked"], key=lambda u: u["tag"]) if u["queue"] == qn and (upto == 0 or u["tag"] <= upto)]
+                    # only deliveries made from the queue object that exists now (its predecessor of the same name is gone)
+                    mine = [u for u in sorted(pch["unacked"], key=lambda u: u["tag"]) if u["queue"] == qn and (upto == 0 or u["tag"] <= upto)
+                            and puborn.get((key, u["tag"], u["uid"]), i) >= pqborn.get(qn, 0)]
                     block = [u["uid"] for u in mine] + block
                 if not block or qn not in cur["queues"]:
                     continue
@@ -582,8 +619,9 @@ def monitor_c14(se, stats):
             break
         cur = parse_snap(st["snap"])
         f = st["op"].split()
+        _rb = _reborn(st, cur)
         for qn in cur["queues"]:
-            if prev is None or qn not in prev["queues"]:
+            if prev is None or qn not in prev["queues"] or qn in _rb:
                 qborn[qn] = i
         for key, ch in cur["chans"].items():
             for u in ch["unacked"]:
